@@ -143,13 +143,32 @@ theorem hexPending_lt {env : Env} {s : St} {cs : Bytes} (hi : Inv env s cs) : he
     · omega
   · omega
 
+/-- right after `\u` the consumed input ends with `\u` -/
+theorem ends_with_bs_u {env : Env} {st : StrSt} {fs : List Frame} {cs : Bytes} {lead : Option Nat}
+    (hi : Inv env ⟨.str st, fs⟩ cs) (he : st.esc = .hex [] lead) : ∃ x, cs = x ++ [0x5c, 0x75] := by
+  have key : ∀ tail, EscInv (.hex [] lead) tail → ∃ y, tail = y ++ [0x5c, 0x75] := by
+    intro tail h
+    cases h with
+    | hex0 _ _ => exact ⟨[], rfl⟩
+    | hex1 a b c d n1 _ _ _ => exact ⟨[0x5c, 0x75, a, b, c, d], rfl⟩
+  cases hi with
+  | strVal _ _ pre items tail _ hp hk hinv hc =>
+    have := hinv.esc; rw [he] at this
+    obtain ⟨y, rfl⟩ := key tail this
+    exact ⟨pre ++ [0x22] ++ items.flatMap Spec.Grammar.StrItem.bytes ++ y, by rw [hc]; simp⟩
+  | strKey _ _ pre mems key' inner items tail _ hp hd ho hk hinv hc =>
+    have := hinv.esc; rw [he] at this
+    obtain ⟨y, rfl⟩ := key tail this
+    exact ⟨pre ++ [0x7b] ++ inner ++ [0x22] ++ items.flatMap Spec.Grammar.StrItem.bytes ++ y, by rw [hc]; simp⟩
+
 /-- **the prefix consumed so far, minus the unchecked digits of a `\u` group, is viable** -/
 theorem viable_prefix (env : Env) (p : Bytes) (s : St) (hf : Feeds env init p s)
     (hside : SideOK env s) (hexp : ExpOK env s) :
     hexPending s ≤ p.length ∧
+    (hexPending s ≠ 0 → ∃ x, p.take (p.length - hexPending s) = x ++ [0x5c, 0x75]) ∧
     ∃ s0, Feeds env init (p.take (p.length - hexPending s)) s0 ∧ Viable env s0 := by
   by_cases h0 : hexPending s = 0
-  · refine ⟨by omega, s, by simpa [h0] using hf, ?_⟩
+  · refine ⟨by omega, fun h => absurd h0 h, s, by simpa [h0] using hf, ?_⟩
     exact viable_of_inv env s p (inv_of_feeds hf) (feeds_litNE env init s p hf litNE_init) hside hexp
       (hexPending_zero h0)
   · -- inside a `\u` group
@@ -161,7 +180,9 @@ theorem viable_prefix (env : Env) (p : Bytes) (s : St) (hf : Feeds env init p s)
         have hk : hexPending ⟨.str st, fs⟩ = acc.length := by simp [hexPending, he]
         obtain ⟨q, rfl, hq⟩ := feeds_unhex env init (by simp [init]) acc.length acc p st fs lead rfl hf he
         rw [hk]
-        refine ⟨by simp, _, by simpa using hq, ?_⟩
+        refine ⟨by simp, fun _ => ?_, _, by simpa using hq, ?_⟩
+        · obtain ⟨x, hx⟩ := ends_with_bs_u (inv_of_feeds hq) rfl
+          exact ⟨x, by simpa using hx⟩
         refine viable_of_inv env _ q (inv_of_feeds hq) (feeds_litNE env init _ q hq litNE_init) ?_ ?_ ?_
         · -- the UTF-8 condition only looks at `out`, and both states are inside an escape
           unfold SideOK at hside ⊢
@@ -281,8 +302,9 @@ theorem earliest_core (env : Env) (p : Bytes) (b : UInt8) (s1 : St) (c : Code) (
     (hside : SideOK env s1) :
     (∃ ys v, parseTop env (p ++ ys) = .ok v) ∨
     ((c = .InvalidEscape ∨ c = .LoneLeadingSurrogateInHexEscape) ∧ 3 ≤ p.length ∧
+      (∃ x, p.take (p.length - 3) = x ++ [0x5c, 0x75]) ∧
       ∃ ys v, parseTop env (p.take (p.length - 3) ++ ys) = .ok v) := by
-  obtain ⟨hle, s0, hq, hv⟩ := viable_prefix env p s1 hf hside hexp
+  obtain ⟨hle, hbu, s0, hq, hv⟩ := viable_prefix env p s1 hf hside hexp
   by_cases h0 : hexPending s1 = 0
   · left
     rw [h0] at hq
@@ -293,8 +315,9 @@ theorem earliest_core (env : Env) (p : Bytes) (b : UInt8) (s1 : St) (c : Code) (
     obtain ⟨h3, hcode⟩ := hex_step_err env st fs b c a acc lead hst he
     have h4 := hexPending_lt (inv_of_feeds hf)
     have hk3 : hexPending ⟨.str st, fs⟩ = 3 := by omega
-    rw [hk3] at hq hle
-    exact ⟨hcode, hle, parseTop_of_viable env _ s0 hq hv⟩
+    have hbu' := hbu h0
+    rw [hk3] at hq hle hbu'
+    exact ⟨hcode, hle, hbu', parseTop_of_viable env _ s0 hq hv⟩
 
 /-! ## the surrogate rule is not applied to skipped content -/
 
